@@ -1,14 +1,20 @@
 import CelmaVerif.Lemmas.ConcurrencyRace
 import CelmaVerif.Lemmas.ConcurrencyManaged
 import CelmaVerif.Lemmas.ConcurrencyLive
+import CelmaVerif.Lemmas.ConcurrencyHB
 /-
   C20 — concurrency helpers keep their contract under every schedule.
   Property theorems only; the invariants are in Lemmas/Concurrency*.lean.  All theorems are about
   `Cfg.current`, i.e. about what translate/concurrency.py read from singleton.hpp and
   managed_thread.hpp in this run (Generated/SharedState.lean); the facts they need about it are
   discharged by `decide`, so a source that no longer provides them breaks the build here.
-  The semantics is sequentially consistent interleaving; weak-memory behaviour is covered only
-  through the race predicate and the memory-order facts (partial in that sense).
+  The semantics is sequentially consistent interleaving.  The memory orders enter through the
+  happens-before layer (`hbStep`, `mhbStep` in Model/Concurrency.lean): along every interleaving it
+  tracks exactly the synchronises-with edges the configuration justifies (unlock → lock, release
+  store → acquire load), and `C20_singleton_published` / `C20_managed_result_published` need
+  `loadAcq`, `storeRel`, `flagOrders`; they FAIL in the relaxed configurations
+  (`C20_relaxed_*`).  What stays outside: executions of the C++ memory model that are not
+  interleavings (partial in that sense; the only atomic cells are written once resp. by one thread).
 -/
 namespace CelmaVerif.Props.C20
 open CelmaVerif CelmaVerif.Concurrency
@@ -49,6 +55,31 @@ theorem C20_singleton_can_complete (n : Nat) (sched : List Nat) :
     ∃ ext : List Nat, ext.length ≤ 7 * n ∧ (srun Cfg.current n (sched ++ ext)).complete n :=
   srun_can_complete _ n sched
 
+/-- **Progress under a fair scheduler.**  For every infinite schedule in which every thread is
+    scheduled again and again (weak fairness), all `n` threads have returned from `instance()`
+    after finitely many entries — and it stays that way.  (No fairness of the mutex is needed: a
+    thread that waits for the mutex waits for a thread that can move.) -/
+theorem C20_singleton_fair_completes (n : Nat) (f : Sched) (hf : Fair n f) :
+    ∃ N, ∀ d, (srun Cfg.current n ((List.range (N + d)).map f)).complete n := by
+  obtain ⟨N, _, hc⟩ := fair_completes Cfg.current n f hf (7 * n) 0 (by
+    show SState.init.measure n ≤ 7 * n
+    rw [measure_init]; exact Nat.le_refl _)
+  refine ⟨N, fun d => ?_⟩
+  rw [← srunInf_eq]
+  exact complete_stable Cfg.current n f N hc d
+
+/-- At most `7·n` entries of *any* schedule change the state (the others are stutter steps of
+    finished, blocked or non-existing threads): the distance to completion starts at `7·n`, never
+    grows, and strictly decreases with every effective step. -/
+theorem C20_singleton_effective_steps (n : Nat) (sched : List Nat) (t : Nat) :
+    (srun Cfg.current n sched).measure n ≤ 7 * n ∧
+    (sstep Cfg.current n (srun Cfg.current n sched) t = srun Cfg.current n sched ∨
+     (sstep Cfg.current n (srun Cfg.current n sched) t).measure n < (srun Cfg.current n sched).measure n) := by
+  refine ⟨?_, sstep_same_or_lt _ n _ t⟩
+  have := srunFrom_measure_le Cfg.current n sched SState.init
+  rw [measure_init] at this
+  exact this
+
 /-- Race freedom in the model's sense: in no reachable state (every prefix of every schedule is a
     schedule) do two threads have enabled conflicting accesses to a non-atomic cell. -/
 theorem C20_singleton_race_free (n : Nat) (sched : List Nat) :
@@ -71,10 +102,46 @@ theorem C20_singleton_only_possible_race (cfg : Cfg) (n : Nat) (sched : List Nat
       (srun cfg n sched).pc t = .write ∧ (srun cfg n sched).pc u = .read1 :=
   sracy_char cfg n _ (sinv_run cfg n sched) hr
 
-/-- The source facts the step from the SC model to the C++ memory model rests on (assumption: with
-    them the release store / acquire load pair orders the constructor before every use of the
-    object by a thread that took the fast path): the fast-path cell is an atomic, loaded with
-    acquire and stored with release (or stronger). -/
+/-- **Publication of the object, with the memory orders doing the work.**  The object itself is
+    written by its constructor and read by every caller with plain accesses; they do not race iff
+    the construction happens-before the use.  Along every schedule of any number of threads, with
+    happens-before generated by program order, unlock → later lock of the mutex, and the release
+    store into the fast-path cell → an acquire load that reads it (`hbStep`; a relaxed load or
+    store contributes no edge): every thread that has passed the checks (is about to use or has
+    been handed the object) has the construction happening-before it, and no thread was ever handed
+    the object without. -/
+theorem C20_singleton_published (n : Nat) (sched : List Nat) :
+    (hrun Cfg.current n sched).2.racyUse = [] ∧
+    ∀ t, ((srun Cfg.current n sched).pc t = .read3 ∨ (srun Cfg.current n sched).pc t = .done) →
+      (hrun Cfg.current n sched).2.knows t = true := by
+  have h := hinv_run Cfg.current ⟨by decide, by decide, by decide⟩ n sched
+  refine ⟨h.clean, fun t ht => h.late t ?_⟩
+  rw [hrun_fst]
+  rcases ht with ht | ht
+  · exact Or.inr (Or.inr (Or.inl ht))
+  · exact Or.inr (Or.inr (Or.inr ht))
+
+/-- … for every configuration that has the three facts, not only the current one -/
+theorem C20_singleton_published_of (cfg : Cfg) (ha : cfg.ptrAtomic = true) (hl : cfg.loadAcq = true)
+    (hs : cfg.storeRel = true) (n : Nat) (sched : List Nat) : (hrun cfg n sched).2.racyUse = [] :=
+  (hinv_run cfg ⟨ha, hl, hs⟩ n sched).clean
+
+/-- The orders are load-bearing: with a **relaxed load** in the unlocked check (everything else as
+    in the source), thread 0 constructs and publishes, thread 1 takes the fast path and is handed
+    the object without the construction happening-before — a data race on the object. -/
+theorem C20_relaxed_load_unpublished :
+    (hrun { Cfg.current with loadAcq := false } 2 [0, 0, 0, 0, 0, 1, 1]).2.racyUse = [1] := by decide
+
+/-- the same with a **relaxed store** -/
+theorem C20_relaxed_store_unpublished :
+    (hrun { Cfg.current with storeRel := false } 2 [0, 0, 0, 0, 0, 1, 1]).2.racyUse = [1] := by decide
+
+/-- the pinned commit (plain pointer read without the mutex): not published either -/
+theorem C20_head_unpublished : (hrun Cfg.head 2 [0, 0, 0, 0, 0, 1, 1]).2.racyUse = [1] := by decide
+
+/-- The source facts `C20_singleton_published` consumes (kept under its old name): the fast-path
+    cell is an atomic, loaded with acquire and stored with release (or stronger).  On its own this
+    is a `decide` over three generated Booleans; what they are good for is the theorem above. -/
 theorem C20_singleton_publication :
     Cfg.current.ptrAtomic = true ∧ Cfg.current.loadAcq = true ∧ Cfg.current.storeRel = true := by
   decide
@@ -103,7 +170,27 @@ theorem C20_managed_race_free (nobs : Nat) (sched : List Nat) :
   let h := minv_run Cfg.current (by decide) nobs sched
   ⟨mracy_of_inv _ (by decide) nobs _ h, h.early, fun x hx => (h.samples x hx).2.2⟩
 
-/-- source fact: the stores use release and `isActive()` acquire (or stronger) -/
+/-- **What the flag's memory orders give.**  An observer whose `isActive()` returns `false` after
+    it has seen the function start (window `after`; it need not know of a `join()`) has read the
+    value the managed thread stored after the function returned; with release stores and an
+    acquire load that read synchronises: the end of the user function — everything it wrote —
+    happens-before the observer's next event (`mhbStep`).  Every such sample of every schedule is
+    marked published. -/
+theorem C20_managed_result_published (nobs : Nat) (sched : List Nat) :
+    (mhrun Cfg.current nobs sched).2.map Prod.fst = (mrun Cfg.current nobs sched).samples ∧
+    ∀ p ∈ (mhrun Cfg.current nobs sched).2, p.1.win = .after → p.1.val = some false → p.2 = true := by
+  have h := mhinv_run Cfg.current (by decide) (by decide) (by decide) nobs sched
+  refine ⟨?_, h.pub⟩
+  rw [← mhrun_fst]; exact h.same
+
+/-- … and it fails with relaxed orders on the flag: the observer sees `false` after the function
+    has returned (no join yet) and nothing orders the function's writes before its reads -/
+theorem C20_relaxed_flag_unpublished :
+    (mhrun { Cfg.current with flagOrders := false } 1 [0, 0, 0, 1, 1, 1, 1, 1, 2]).2 =
+      [(⟨2, .after, false, some false⟩, false)] := by decide
+
+/-- source facts `C20_managed_result_published` consumes: the stores use release and
+    `isActive()` acquire (or stronger), the flag is an atomic -/
 theorem C20_managed_orders : Cfg.current.flagOrders = true ∧ Cfg.current.flagAtomic = true := by
   decide
 
@@ -122,6 +209,21 @@ theorem C20_head_managed_inactive_while_running :
 /-- witness: right after the base class has started the thread the flag's construction and the
     child's first store are both enabled -/
 theorem C20_head_managed_racy : MRacy Cfg.head 1 (mrun Cfg.head 1 [0]) := by decide
+
+/-- A shape the source must not have (seeded/C20-2, "active as soon as created"): `store(true)`
+    moved from the thread's lambda into the constructor body, i.e. executed by the *creating*
+    thread after the thread was started (`mstepCreator`).  Schedule: constructor up to the start of
+    the thread, the managed thread runs its function to the end and stores `false`, then the
+    constructor body stores `true`, `join()`, one `isActive()`: **true after join**, the negation
+    of `C20_managed_inactive` for that shape. -/
+theorem C20_managed_creator_store_violates :
+    (mrunCreator 1 [0, 0, 0, 1, 1, 1, 1, 0, 0, 2]).1.samples = [⟨2, .after, true, some true⟩] := by decide
+
+/-- … and while the function runs and the constructor has returned the flag can only be read as
+    true, but the constructor returns too late: the window in which the function runs and the
+    flag is still `false` exists (no observer can hold the object yet, so no sample is taken) -/
+theorem C20_managed_creator_store_inactive_while_running :
+    (mrunCreator 1 [0, 0, 0, 1]).1.win = .during ∧ (mrunCreator 1 [0, 0, 0, 1]).1.flag = some false := by decide
 
 /-! ### non-vacuity -/
 
@@ -144,5 +246,27 @@ example : (srun Cfg.current 2 [0, 0, 0, 0]).pc 0 = .write ∧ (srun Cfg.current 
 example : ((mrun Cfg.current 1 [0, 0, 0, 2, 1, 1, 2, 1, 1, 1, 2, 0, 2]).samples.map fun x => (x.win, x.joined, x.val)) =
     [(.before, false, some false), (.during, false, some true), (.after, false, some false),
      (.after, true, some false)] := by decide
+
+/-- a fair schedule exists (round robin), so `C20_singleton_fair_completes` is not vacuous -/
+example (n : Nat) (hn : 0 < n) : Fair n (fun k => k % n) := by
+  intro t ht k
+  refine ⟨k + (n - k % n) % n + t, by omega, ?_⟩
+  have h1 : (k + (n - k % n) % n) % n = 0 := by
+    rw [Nat.add_mod, Nat.mod_mod]
+    by_cases hz : k % n = 0
+    · simp [hz]
+    · have : k % n < n := Nat.mod_lt _ hn
+      rw [Nat.mod_eq_of_lt (show n - k % n < n by omega), show k % n + (n - k % n) = n by omega, Nat.mod_self]
+  show (k + (n - k % n) % n + t) % n = t
+  rw [Nat.add_mod, h1, Nat.zero_add, Nat.mod_mod, Nat.mod_eq_of_lt ht]
+
+/-- the publication theorem is about threads that exist: after this schedule thread 1 took the
+    fast path (acquire load saw the pointer), thread 2 the slow path after the store -/
+example : ((hrun Cfg.current 3 [0, 0, 0, 0, 0, 1, 2, 0, 2, 2, 2, 1]).1.pc 1 = .done) ∧
+    ((hrun Cfg.current 3 [0, 0, 0, 0, 0, 1, 2, 0, 2, 2, 2, 1]).2.knows 1 = true) ∧
+    ((hrun Cfg.current 3 [0, 0, 0, 0, 0, 1, 2, 0, 2, 2, 2, 1]).2.knows 2 = true) := by decide
+
+/-- a sample as in `C20_managed_result_published` exists and is marked published -/
+example : (mhrun Cfg.current 1 [0, 0, 0, 1, 1, 1, 1, 1, 2]).2 = [(⟨2, .after, false, some false⟩, true)] := by decide
 
 end CelmaVerif.Props.C20
